@@ -13,4 +13,5 @@ CONSTANTS
   Junk = 34
   EmitOn = TRUE
 INVARIANTS ResumeEqFresh Idempotent Stable OffsSane Emit
+PROPERTY MonotoneCont
 CHECK_DEADLOCK FALSE
